@@ -12,6 +12,7 @@ LEVEL = "exploration"
 ANCHORS = ["src/pylife/core/broadcaster.py", "src/pylife/core/pylifesignal.py", "src/pylife/materiallaws/woehlercurve.py",
            "src/pylife/strength/meanstress.py"]
 SHARDS = {"quick": 6, "thorough": 16}
+SOAK = {"thorough": ["tests/core", "tests/materiallaws", "tests/strength", "tests/stress/collective"]}      # contract soak under the repository's own tests
 WATCHDOG = {"quick": 1200, "thorough": 3300}
 REQUIRED_CLASSES = {t: ["names:equal", "names:disjoint", "names:prm_contained_in_obj", "names:obj_contained_in_prm",
                         "names:overlapping", "order:permuted_levels", "levels:3", "unnamed_level", "keys:int", "keys:str",
